@@ -3,9 +3,11 @@
 # and, when confirmed, stores it under /verif/seeded/<Cnn>-<variant>/.
 export GOFLAGS=-mod=mod GOPROXY=off GOSUMDB=off GOTOOLCHAIN=local
 id=$1; v=$2
-src=/tmp/seed/$id/out/$v
-wt=/tmp/seedconf/$id-$v
-log=/tmp/seedconf/$id-$v.log
+srcroot=${3:-/tmp/seed}
+tv=${4:-$v}      # variant letter under which it is stored
+src=$srcroot/$id/out/$v
+wt=/tmp/seedconf/$id-$tv
+log=/tmp/seedconf/$id-$tv.log
 mkdir -p /tmp/seedconf
 exec >$log 2>&1
 [ -f $src/patch.diff ] || { echo "RESULT $id-$v NO-PATCH"; exit 1; }
@@ -22,17 +24,17 @@ if ! git apply --check $src/patch.diff 2>/dev/null; then
   git apply --3way $src/patch.diff || { echo "RESULT $id-$v PATCH-DOES-NOT-APPLY"; cd /; git -C /repo worktree remove --force $wt; exit 1; }
   git reset -q
 else git apply $src/patch.diff; fi
-git diff -- . ':!*zz_seeded_demo_test.go' > /tmp/seedconf/$id-$v.rebased.diff
+git diff -- . ':!*zz_seeded_demo_test.go' > /tmp/seedconf/$id-$tv.rebased.diff
 echo "## build"; go build ./...; r2=$?
 echo "## demo on changed tree"; $run; r3=$?
 rm -f $demo
 echo "## full suite on changed tree"; go test -vet=off -count=1 -tags testing ./... 2>&1 | grep -v '^ok' | grep -v 'no test files'; r4=${PIPESTATUS[0]}
 cd /; git -C /repo worktree remove --force $wt
 if [ $r1 = 0 ] && [ $r2 = 0 ] && [ $r3 != 0 ] && [ $r4 = 0 ]; then
-  d=/verif/seeded/$id-$v; mkdir -p $d
-  cp /tmp/seedconf/$id-$v.rebased.diff $d/patch.diff; cp $src/demo_test.go $d/demo_test.go
-  jq --arg head "$(git -C /repo rev-parse --short HEAD)" --arg place "$place" '. + {confirmed_at_repo_commit:$head, demo_place_in:$place, confirmed:"demo passes on the unchanged tree, fails with the patch; go build ./... ok; full suite (go test -vet=off -count=1 -tags testing ./...) passes with the patch", confirm_cmd:"tools/confirm_seed.sh"}' $src/meta.json > $d/meta.json
-  echo "RESULT $id-$v CONFIRMED"
+  d=/verif/seeded/$id-$tv; mkdir -p $d
+  cp /tmp/seedconf/$id-$tv.rebased.diff $d/patch.diff; cp $src/demo_test.go $d/demo_test.go
+  jq --arg variant "$tv" --arg head "$(git -C /repo rev-parse --short HEAD)" --arg place "$place" '. + {variant:$variant, confirmed_at_repo_commit:$head, demo_place_in:$place, confirmed:"demo passes on the unchanged tree, fails with the patch; go build ./... ok; full suite (go test -vet=off -count=1 -tags testing ./...) passes with the patch", confirm_cmd:"tools/confirm_seed.sh"}' $src/meta.json > $d/meta.json
+  echo "RESULT $id-$tv CONFIRMED"
 else
-  echo "RESULT $id-$v REJECTED demo_clean=$r1 build=$r2 demo_changed=$r3 suite=$r4"
+  echo "RESULT $id-$tv REJECTED demo_clean=$r1 build=$r2 demo_changed=$r3 suite=$r4"
 fi
